@@ -26,7 +26,11 @@ EXPLANATION = (
     "produces the keys every reader consumes, and a reader that rebuilds a tree "
     "re-applies every stored sliced index unconditionally unless its writer stores "
     "the constant () / its constructor rejects slicing options. That a reconstructed "
-    "tree equals the searched one is not decided."
+    "tree equals the searched one is not decided. "
+    "Later rounds added: "
+    "(OVERWRITE) the durable store's publish step displaces an existing record; "
+    "(OBJECTIVE) the objective a wrapper stores depends on the same constructor "
+    "parameters its sub-optimizer folds into its own. "
 )
 ASSUMPTIONS = (
     "hashlib digests are collision-free for the purpose of the property",
